@@ -309,17 +309,17 @@ fn arb_context() -> BoxedStrategy<Ctx> {
 fn run(rep: &Report) {
     rep.set_rule(
         "(i) strings (rendered ASTs, token soups, raw Unicode, planted defects, lexical errors): Node::deserialize from \
-         serde's own &str deserializer, from an exact in-memory data-model format and from serde_json's string encoding \
+         serde's own &str and borrowed-str deserializers, from an exact in-memory data-model format, from RON and from serde_json's string encoding (string and reader) \
          must give Ok(tree == build_operator_tree(s)) or fail with the same message. (ii) contexts reachable through \
          the API (random variable maps over all six value types with +-0.0, subnormals, +-inf, NaN, nested tuples, \
          Unicode and empty names, both switch values, with and without user functions): serialise -> deserialise \
          through the exact data-model format (bit-exact by construction) and, when all floats are finite, through \
-         serde_json with float_roundtrip; the result has identical variables (NaN <-> NaN), identical switch, and \
+         RON and serde_json with float_roundtrip; also expressions and contexts of scaled size (1..400 elements / variables); the result has identical variables (NaN <-> NaN), identical switch, and \
          resolves no user function. Non-trivial: distinct strings that build to >= 3 nodes or fail; distinct contexts \
          with >= 3 variables of >= 3 types including a float and a tuple.",
     );
     rep.assume("D13: any NaN equals any NaN; JSON cannot represent non-finite floats, such contexts go through the data-model format only");
-    rep.assume("ron is not available to this toolchain's registry; the property statement is format independent");
+    rep.assume("RON through a vendored ron 0.8.1 (the format of evalexpr's own serde tests); the property statement is format independent");
     let fixed = ["3", "4+4", "21^(2*2)--3>5||!true", "&", "[\"5==5\"]", "", "(", "a = 1; a", "\"s\"", "\"", "1, 2; 3", "/*", "a/**/b"];
     common::enumerate(rep, "fixed-strings", fixed.len() as u64, 1, &|i, l| check_node(fixed[i as usize], l));
     let n = rep.tier.pick(300_000u64, 10_000_000);
@@ -327,6 +327,38 @@ fn run(rep: &Report) {
     common::random_search(rep, "strings", 160, n, &move || programs::arb_program(depth), &|p: &programs::Program, l| {
         l.sample(3, || json!(vcore::clip(&p.src, 120)));
         check_node(&p.src, l)
+    });
+    // scale: expressions and contexts whose size crosses typical capacities (wide tuples, long
+    // chains, deep nesting, long identifiers and strings; contexts with 1..400 variables of all types)
+    let scaled = gen::all_scaled();
+    common::enumerate(rep, "scaled-strings", scaled.len() as u64, 4, &|i, l| {
+        let s = &scaled[i as usize];
+        let toks = refmodel::ast::render_tokens(&s.ast, &mut refmodel::ast::Minimal);
+        let src = refmodel::tok::render_spaced(&toks);
+        if src.chars().count() > 4096 {
+            return Ok(());
+        }
+        l.label("scaled expression");
+        check_node(&src, l)
+    });
+    let sizes = gen::SCALE_SIZES;
+    common::enumerate(rep, "scaled-contexts", sizes.len() as u64 * 2, 4, &|i, l| {
+        let n = sizes[(i % sizes.len() as u64) as usize];
+        let mut c = Ctx::hashmap();
+        c.builtins_disabled = i / sizes.len() as u64 == 1;
+        for k in 0..n {
+            let v = match k % 6 {
+                0 => refmodel::value::RV::Int(k as i64 - 3),
+                1 => refmodel::value::RV::Float(k as f64 * 0.25 - 1.0),
+                2 => refmodel::value::RV::Str(format!("s{}", "x".repeat(k % 40))),
+                3 => refmodel::value::RV::Bool(k % 4 == 3),
+                4 => refmodel::value::RV::Tuple((0..(k % 20)).map(|j| refmodel::value::RV::Int(j as i64)).collect()),
+                _ => refmodel::value::RV::Empty,
+            };
+            c.vars.insert(format!("v{}", k), v);
+        }
+        l.label("context with many variables");
+        check_context(&c, l)
     });
     let nc = rep.tier.pick(150_000u64, 6_000_000);
     common::random_search(rep, "contexts", 161, nc, &arb_context, &|c: &Ctx, l| {
